@@ -86,9 +86,10 @@ def queued_result_case(draw, tier):
 def cases(draw, tier):
     if draw(st.integers(0, 9)) < 2:
         return draw(queued_result_case(tier))
-    provs = draw(st.sampled_from([("machine",), ("machine", "model"), ("machine", "model", "l0", "l1")]))
+    provs = draw(st.sampled_from([("machine",), ("machine", "model"), ("machine", "model", "l0", "l1"), ("machine", "l0", "late0")]))
+    late = tuple(p for p in provs if p.startswith("late"))
     async_mode = draw(st.sampled_from(["none", "none", "all", "mixed"]))
-    spec = draw(gen.machine_spec(max_states=3, max_extra=4, providers=provs, async_mode=async_mode, sends=draw(st.sampled_from([False, True, True])),
+    spec = draw(gen.machine_spec(max_states=3, max_extra=4, providers=provs, late=late, async_mode=async_mode, sends=draw(st.sampled_from([False, True, True])),
                                  shared_names=True, rets=RETS, validators=True))
     mode = draw(st.sampled_from(["dense", "sparse", "sparse", "mixed"]))
     if mode != "dense":
@@ -103,7 +104,7 @@ def cases(draw, tier):
         for grp in ("before", "on"):
             for j in range(draw(st.sampled_from(counts))):
                 att = draw(st.sampled_from(["name", "func", "deco"]))
-                prov = "free" if att == "func" else "machine" if att == "deco" else draw(st.sampled_from(list(provs)))
+                prov = "free" if att == "func" else "machine" if att == "deco" else draw(st.sampled_from([p_ for p_ in provs if not p_.startswith("late")]))
                 nm = f"x{k}_{grp}{j}"
                 if (nm, prov) in names:
                     continue
@@ -117,13 +118,19 @@ def cases(draw, tier):
     cfg = {"rtc": True if is_async else draw(st.sampled_from([True, True, False])), "allow": draw(st.booleans()),
            "driver": draw(st.sampled_from(["sync", "loop"])), "activate": True}
     hist = draw(gen.history(spec, max_steps=6 if tier == "quick" else 10))
-    for step in hist:  # mostly enabling valuations: results need executed transitions
+    out = []
+    pending = list(late)
+    for n_, step in enumerate(hist):  # mostly enabling valuations: results need executed transitions
         for k in list(step["val"]):
             if k.startswith("v"):
                 step["val"][k] = False
         if draw(st.booleans()):
             step["style"] = "method"
-    return {"spec": spec, "cfg": cfg, "history": hist}
+        if pending and n_ > 0 and draw(st.booleans()):
+            # a listener attached after events were already processed: from now on its before/on values are part of the results
+            out.append({"op": "attach", "prov": pending.pop(0)})
+        out.append(step)
+    return {"spec": spec, "cfg": cfg, "history": out}
 
 
 def strategy(tier):
